@@ -2,7 +2,8 @@
    Statements only.  Model: Model/LR.v (`lr_loop` = the `while True:` growth loop, `lr_forward` = Forward.parseImpl,
    `parse_lr` = the handler threading the memo; `memo` with m_cap = None is UnboundedMemo, Some c is LRUMemo(c)).
    Auxiliary definitions (ends_bounded, seeded, grow, iter, rep_ref, the concrete attributed grammars GXY/IXY/GE/IE/GN as
-   dumped from the real objects) are in Proofs/LRGrowth.v. *)
+   dumped from the real objects) are in Proofs/LRGrowth.v; those of sections 3b / 3c (ws_of, tail_res, walks, pindep, agree, left_nest,
+   nest_rounds, agree_nested, the grammars IE' / GG / GZ / IZ) in Proofs/LRIter.v. *)
 From Coq Require Import List ZArith NArith Bool Arith.
 From PP Require Import Model.Str Model.Results Model.Prog Model.Core Model.Entry Model.LR.
 From PP Require Import Proofs.LRGrowth Proofs.LRTie Proofs.LRIter.
@@ -110,9 +111,9 @@ Proof. exact lr_forward_grow. Qed.
    Conclusion: `E._parse` answers what `iter` computes: start from base's result; in each round run the tail elements at
    the current end on the accumulated result (`and_pure`, tokens joined with pr_iadd, re-wrapped by E / And / MatchFirst);
    extend iff the tail matches and advances; stop at the first round where it does not; capacity preserved.
-   Missing for the property's text: do_actions-sensitive actions, results names, the grouped form Group(E + tail), Or
-   bodies, several recursive alternatives, base/tail containing other Forwards, and the link from `iter`/`rep_ref` to the
-   plain parser running `base + ZeroOrMore(And(tail))` (shown on an instance below by computation). *)
+   The link from `iter` to the plain parser running `base + ZeroOrMore(And(tail))` is section 3b, the grouped form
+   Group(E + tail) section 3c.  Missing for the property's text: do_actions-sensitive actions, results names, Or bodies,
+   several recursive alternatives, base/tail containing other Forwards. *)
 Theorem C04_direct_equiv_partial : forall G s (ans : expr -> nat -> outcome) id aE ab aa tail base loc f0,
   nth_error G id = Some (Nary ab [] NMatchFirst [Nary aa [] NAnd (Fwd aE [] (Some id) :: tail); base]) ->
   plain aE -> plain aa -> plain ab ->
@@ -332,6 +333,76 @@ Theorem C04_iterative_nullable_tail_refuted :
 Proof.
   exists GZ, gZ, IZ, s_1. destruct nullable_tail_witness as [H1 [H2 _]]. split; assumption.
 Qed.
+
+(* ============================ 3c. the grouped form: left-nested token trees ============================ *)
+(* E <<= Group(E + t1 + rest...) | base (the body as the real streamline() leaves it: MatchFirst [Group(And(E :: tail)); base])
+   against the SAME flat iterative grammar base + ZeroOrMore(And(t1 :: rest)) under the plain parser.
+     left_nest        [a; op; b; op; c] -> [[[a; op; b]; op; c]] on token lists (the Python `left_nest` of tools/props/c04.py);
+     nest_rounds v rounds = fold_left (fun cur t => [TList (cur ++ t)]) rounds v  (the general fold, any round length);
+     a_round ans tail t : t is the token list of one match of the tail sequence;
+     agree_nested .. o_lr o_it : both Ok and there are rounds (each `a_round`) with
+         tokens(iterative) = tokens(base) ++ concat rounds   and   as_list(left-recursive) = nest_rounds as_list(base) rounds,
+       ends related as in `agree`; or both Err with the same class; or both Div.
+   PARTIAL: same hypotheses as C04_direct_iterative_partial with the Group (name-free, action-free, its own preParse does not
+   move from loc) in place of the And's stability; Group(aslist=True/False) both covered (`aspy`). *)
+Theorem C04_grouped_iterative_partial :
+  forall G G' s (ans : expr -> nat -> outcome) id aE ab aG aa aspy ai ar at_ t1 rest base loc f0,
+  nth_error G id = Some (Nary ab [] NMatchFirst
+                           [Enh aG [] (EGroup aspy) (Nary aa [] NAnd (Fwd aE [] (Some id) :: t1 :: rest)); base]) ->
+  plain aE -> plain aa -> plain ab -> plain aG ->
+  ws_of aG s loc = loc ->
+  indep G s ans f0 base ->
+  (forall c, In c (t1 :: rest) -> indep G s ans f0 c) ->
+  plain ai -> plain ar -> plain at_ ->
+  is_estop t1 = false ->
+  (forall c, In c rest -> pindep G' s ans f0 c) ->
+  (forall fu, f0 <= fu -> forall l d, parse (step G') fu (mkargs t1 s (ws_of at_ s l) d false) = Some (ans t1 l)) ->
+  (forall l, ws_of at_ s (ws_of ar s l) = ws_of at_ s l) ->
+  walks s ans (t1 :: rest) ->
+  (forall fu, f0 <= fu -> forall d, parse (step G') fu (mkargs base s loc d false) = Some (ans base loc)) ->
+  forall lb rb, ans base loc = Ok lb rb -> loc <= lb -> lb <= length s + 1 ->
+  forall f d pre loc0 m, f0 <= f ->
+  fwd_start aE s loc0 pre = loc -> fwd_start ai s loc0 pre = loc ->
+  memo_get m (loc, nid aE, d) = None ->
+  exists m' o_lr o_it,
+    parse_lr G (5 + f) m (mkargs (Fwd aE [] (Some id)) s loc0 d pre) = Some (o_lr, m') /\
+    m_cap m' = m_cap m /\
+    parse (step G') (3 + f)
+      (mkargs (Nary ai [] NAnd [base; Rep ar [] true (Nary at_ [] NAnd (t1 :: rest)) None]) s loc0 d pre) = Some o_it /\
+    agree_nested ans (t1 :: rest) (ws_of ar s lb) lb rb o_lr o_it.
+Proof. exact grouped_iterative. Qed.
+
+(* one token from base and two tokens (operator, operand) per round: as_list(left-recursive) = left_nest(as_list(iterative)) *)
+Theorem C04_grouped_left_nest_partial : forall (ans : expr -> nat -> outcome) tail wsl lb rb o_lr o_it,
+  length (toks rb) = 1 ->
+  (forall t, a_round ans tail t -> length t = 2) ->
+  agree_nested ans tail wsl lb rb o_lr o_it ->
+  match o_lr, o_it with
+  | Ok l r, Ok l' r' => pr_as_list r = left_nest (pr_as_list r') /\ l' = (if Nat.eqb l lb then wsl else l)
+  | Err x, Err x' => xk x' = xk x
+  | Div, Div => True
+  | _, _ => False
+  end.
+Proof. exact agree_nested_left_nest. Qed.
+
+(* every hypothesis of C04_grouped_iterative_partial is met: E <<= Group(E + '+' + N) | N on "1+2+1", every fuel, do_actions,
+   memo of any capacity *)
+Example C04_grouped_iterative_instance : forall f d m,
+  memo_get m (0, 1, d) = None ->
+  exists m' o_lr o_it,
+    parse_lr GG (6 + f) m (mkargs gGr s_121 0 d true) = Some (o_lr, m') /\ m_cap m' = m_cap m /\
+    parse (step GG) (4 + f) (mkargs IE' s_121 0 d true) = Some o_it /\
+    agree_nested (leaf_ans GG s_121) [lit 4 43; num 5] (ws_of IE_ar s_121 1) 1 (pr_of_list [tstr 49]) o_lr o_it.
+Proof. exact grouped_instance. Qed.
+
+(* the same by running both models: [[['1','+','2'],'+','1']] = left_nest ['1','+','2','+','1'], UnboundedMemo and LRUMemo(0/1/2) *)
+Example C04_grouped_positive :
+  let flat := [tstr 49; tstr 43; tstr 50; tstr 43; tstr 49] in
+  (forall cap, In cap [None; Some 0; Some 1; Some 2] ->
+     aslist_of (parse_lr GG 40 (memo_empty cap) (mkargs gGr s_121 0 true true)) = Some (5, left_nest flat)) /\
+  res_of_plain (parse (step GG) 40 (mkargs IE' s_121 0 true true)) = Some (5, flat) /\
+  left_nest flat = [TList [TList [tstr 49; tstr 43; tstr 50]; tstr 43; tstr 49]].
+Proof. exact grouped_computed. Qed.
 
 (* ============================ 4. indirect left recursion: refuted (F-04) ============================ *)
 (* X <<= Y + 'x' | 'a' ; Y <<= X + 'y' on "ayxyx": bounded recursion answers ['a'] ending at 1 (UnboundedMemo, LRUMemo(0),
